@@ -35,10 +35,13 @@ PROPS = {}
 
 PROPS["C10"] = dict(
     level="proof",
-    text="comparison helpers on the real Value type: full i64xi64, full non-NaN f64xf64, mixed int/float",
+    text="comparison helpers on the real Value type: full i64xi64, full non-NaN f64xf64, mixed int/float (Kani, in place); "
+         "try_gt/try_ge/try_lt/try_le extracted and verified by Verus for integers, every pair of strings and every pair of timestamps against the lexicographic / chronological order",
     kani=["c10_int_cmp", "c10_float_cmp", "c10_mixed_eq"],
-    trusted=[],
-    not_covered=["byte-string and timestamp ordering beyond the listed bounded units", "structural equality of nested collections (derived PartialEq, std)"],
+    verus=["v_cmp"],
+    trusted=["verus prelude cmp.rs: std `>`,`>=`,`<`,`<=` on bytes::Bytes are the lexicographic byte order and on chrono::DateTime<Utc> the order on (seconds, nanoseconds) -- their Ord definitions, stated as contracts of bytes_*/ts_*; try_bytes/try_timestamp return the payload or a type error",
+             "float and mixed int/float arms are opaque in the Verus unit (float_cmp_*); they are the subject of the Kani units"],
+    not_covered=["structural equality of nested collections (derived PartialEq, std)"],
 )
 PROPS["C11"] = dict(
     verus=["v_str_arith"],
